@@ -632,10 +632,6 @@ def raw_cases(ctx, n, tag):
         if not same(impl, mm):
             if fmt == "xls" and mm is not None and mm.startswith("ok/") and impl in ("err", "panic"):
                 ctx.count("raw:xls:sheet-loop-outside-model")
-            elif fmt == "xlsb" and mm == "err" and impl.startswith("ok/") and "23524546" in impl:
-                # C14's Ptg.v still mirrors the pre-hardening parse_formula: an out-of-range ixti was
-                # a panic (bridged to err in Meta.v), the code now prints "#REF"
-                ctx.count("raw:xlsb:ptg-model-out-of-date (#REF for an out-of-range ixti)")
             elif mm == "fuel" and impl == "timeout":
                 ctx.count("raw:ods:endless-read_table")
             else:
